@@ -334,7 +334,7 @@ pub static C10: PropSpec = PropSpec {
     id: "C10",
     simulator: "S-sim",
     level: "exploration",
-    runs: |t| if t == Tier::Thorough { 3_000_000 } else { 200_000 },
+    runs: |t| if t == Tier::Thorough { 30_000_000 } else { 200_000 },
     enumerated: |_| 0,
     run,
     rule: "1-3 requests per session, each exercising one text-valued or fragment-valued parameter of one operation (19 parameter sites); text values are concatenations of pieces from an adversarial alphabet (XML metacharacters, quotes, ']]>', the delimiter itself, entity look-alikes, comment/CDATA/PI openers, non-ASCII, empty); fragments come from a well-formed fragment generator (namespaces, attributes, nested elements, rewrite styles) and never contain the delimiter. The server frames by delimiter and parses with the harness's strict parser. Non-trivial = at least one request was sent; distinct = distinct event-log hash (includes the parameter values)",
